@@ -176,5 +176,67 @@ def panicNow {α : Type} (msg : String) : M α := ⟨fun os => (Res.panic msg, o
 
 def sabs (bits : Nat) (mode : Mode) (a : Int) : Res Int := chkS bits mode (if a < 0 then -a else a)
 
+/-! ## strings: a `&str` is the list of its chars; offsets are byte offsets of the UTF-8 encoding,
+     as `str::find`, `char_indices` and slicing count them -/
+
+def utf8Len (c : Char) : Nat :=
+  if c.toNat < 128 then 1 else if c.toNat < 2048 then 2 else if c.toNat < 65536 then 3 else 4
+
+def strLen : List Char → Nat
+  | [] => 0
+  | c :: cs => utf8Len c + strLen cs
+
+def charIndicesFrom : Nat → List Char → List (Nat × Char)
+  | _, [] => []
+  | off, c :: cs => (off, c) :: charIndicesFrom (off + utf8Len c) cs
+/-- `s.char_indices()` -/
+def charIndices (s : List Char) : List (Nat × Char) := charIndicesFrom 0 s
+
+def strFindFrom : Nat → List Char → Char → Option Nat
+  | _, [], _ => none
+  | off, x :: xs, c => if x == c then some off else strFindFrom (off + utf8Len x) xs c
+/-- `s.find(c)`: byte offset of the first occurrence -/
+def strFind (s : List Char) (c : Char) : Option Nat := strFindFrom 0 s c
+
+def strRfindFrom : Nat → List Char → Char → Option Nat → Option Nat
+  | _, [], _, acc => acc
+  | off, x :: xs, c, acc => strRfindFrom (off + utf8Len x) xs c (if x == c then some off else acc)
+def strRfind (s : List Char) (c : Char) : Option Nat := strRfindFrom 0 s c none
+
+/-- `&s[lo..]`: panics unless `lo` is a char boundary of `s` (its end included) -/
+def strFrom : List Char → Nat → Res (List Char)
+  | s, 0 => Res.ok s
+  | [], _ + 1 => Res.panic "str-index"
+  | c :: cs, n + 1 => if utf8Len c ≤ n + 1 then strFrom cs (n + 1 - utf8Len c) else Res.panic "str-index"
+
+/-- `&s[..n]` -/
+def strTake : List Char → Nat → Res (List Char)
+  | _, 0 => Res.ok []
+  | [], _ + 1 => Res.panic "str-index"
+  | c :: cs, n + 1 =>
+    if utf8Len c ≤ n + 1 then (match strTake cs (n + 1 - utf8Len c) with | Res.ok r => Res.ok (c :: r) | Res.panic w => Res.panic w)
+    else Res.panic "str-index"
+
+def strSlice (s : List Char) (lo hi : Nat) : Res (List Char) :=
+  if lo ≤ hi then (match strFrom s lo with | Res.ok r => strTake r (hi - lo) | Res.panic w => Res.panic w)
+  else Res.panic "str-index"
+
+/-- `char::is_whitespace` (the Unicode White_Space property) -/
+def isWs (c : Char) : Bool :=
+  let n := c.toNat
+  (9 ≤ n && n ≤ 13) || n == 32 || n == 0x85 || n == 0xA0 || n == 0x1680 || (0x2000 ≤ n && n ≤ 0x200A) ||
+  n == 0x2028 || n == 0x2029 || n == 0x202F || n == 0x205F || n == 0x3000
+
+def strTrimStart (s : List Char) : List Char := s.dropWhile isWs
+def strTrimEnd (s : List Char) : List Char := (s.reverse.dropWhile isWs).reverse
+def strTrim (s : List Char) : List Char := strTrimEnd (strTrimStart s)
+
+def strStartsWith (s p : List Char) : Bool := p.isPrefixOf s
+def strEndsWith (s p : List Char) : Bool := p.reverse.isPrefixOf s.reverse
+def strContains : List Char → List Char → Bool
+  | [], p => p.isEmpty
+  | c :: cs, p => p.isPrefixOf (c :: cs) || strContains cs p
+
+
 end Rt
 end Inj
